@@ -5,6 +5,14 @@ from ..interp_prop import InterpProp
 
 class C04(InterpProp):
     id = 'C04'
+    # observables compared with the model (see InterpProp.normalize)
+    cmp_eff = ('meta', 'guard')
+    cmp_meta = ('step started', 'event consumed', 'step ended')
+    cmp_step = ('transition',)
+    cmp_slot = ('config', 'ctx')
+    cmp_callbacks = False
+    cmp_err = 'class'
+    cmp_time = False
     quick_cases = 1000
     thorough_cases = 40000
     n_ops = 30
